@@ -1,5 +1,6 @@
 pub mod exec;
 pub mod gen;
+pub mod hung;
 pub mod proto;
 
 use exec::*;
@@ -62,11 +63,37 @@ pub static PANICS: std::sync::atomic::AtomicU64 = std::sync::atomic::AtomicU64::
 /// panic that aborts the process (unwinding out of an `extern "C"` function) still leaves a replay.
 pub static JOURNAL: std::sync::Mutex<Option<std::fs::File>> = std::sync::Mutex::new(None);
 
+/// Progress counter for the watchdog: bumped before and after every call into the library.
+pub static PROGRESS: std::sync::atomic::AtomicU64 = std::sync::atomic::AtomicU64::new(0);
+pub fn tick() { PROGRESS.fetch_add(1, std::sync::atomic::Ordering::SeqCst); }
+
+/// A call that never returns (a deadlock) must not hang the check: after `secs` seconds without
+/// progress the process reports `HANG` and exits with code 4; the crash journal holds the history.
+pub fn start_watchdog(secs: u64) {
+    std::thread::spawn(move || {
+        use std::sync::atomic::Ordering::SeqCst;
+        let mut last = PROGRESS.load(SeqCst);
+        let mut since = std::time::Instant::now();
+        loop {
+            std::thread::sleep(std::time::Duration::from_millis(250));
+            let p = PROGRESS.load(SeqCst);
+            if p != last {
+                last = p;
+                since = std::time::Instant::now();
+            } else if since.elapsed().as_secs() >= secs {
+                eprintln!("HANG no call into the library returned for {} s (deadlock or blocked call)", secs);
+                std::process::exit(4);
+            }
+        }
+    });
+}
+
 pub fn set_journal(path: &str) {
     *JOURNAL.lock().unwrap() = std::fs::File::create(path).ok();
 }
 
 fn journal_start(lines: &[String]) {
+    tick();
     use std::io::Seek;
     if let Some(f) = JOURNAL.lock().unwrap().as_mut() {
         let _ = f.set_len(0);
@@ -77,6 +104,7 @@ fn journal_start(lines: &[String]) {
 }
 
 fn journal_op(line: &str) {
+    tick();
     if let Some(f) = JOURNAL.lock().unwrap().as_mut() {
         let _ = writeln!(f, "{}", line);
         let _ = f.flush();
